@@ -285,11 +285,12 @@ def r07_3(ctx):
         for c in ast.walk(fi.node):
             if isinstance(c, ast.Call) and call_name(c) in ('collocation_info', 'collocation_derivs_info') and len(c.args) >= 2:
                 coords[name] = (src(c.args[0]), src(c.args[1]))
-        for s in own_nodes(fi.node):
-            if isinstance(s, ast.Assign) and isinstance(s.targets[0], ast.Subscript) and isinstance(s.targets[0].slice, ast.Tuple):
-                last = s.targets[0].slice.elts[-1]
-                if 'sdim' in src(last):
-                    slots[name] = last
+        for l in own_nodes(fi.node):
+            if isinstance(l, ast.For) and src(l.iter) == 'range(sdim)' and src(l.target) == 'i':
+                for s in l.body:
+                    if isinstance(s, ast.Assign) and isinstance(s.targets[0], ast.Subscript) and isinstance(s.targets[0].slice, ast.Tuple) \
+                            and src(s.targets[0].value).startswith('result'):
+                        slots[name] = s.targets[0].slice.elts[-1]
     ctx.floor('R07.3', 'pointwise evaluators with collocation pairing', len(coords), 3)
     vals = set(coords.values())
     ctx.decide('R07.3', B + '.tp_bsp_*_pointwise', 'coordinate pairing ' + ' | '.join('%s,%s' % v for v in sorted(vals)),
